@@ -40,6 +40,18 @@ theorem drop_only_if_unanswered {T : Nat} (hT : 1 ≤ T) {s s' : St} {o : Op}
     rw [h] at this
     exact absurd this hd
 
+/-- `monitor_pings_are_written`: the peer can only answer the Pings it receives, so "responsive"
+    must not be made vacuous by the Leader swallowing its own Pings.  Whatever the environment
+    does — including the transport pausing the Outbound (`Op.pause`, send buffer full) at any
+    instant — every Ping registered while a connection `c` is in use is handed to
+    `c.send_record` at that instant (`wire = some c`); and only a timer expiry generates one.
+    (The one Ping that is *not* written is the one `connector_connection_made` generates before
+    the connection is in use, see `monitoring_restarts`.) -/
+theorem monitor_pings_are_written {T : Nat} (hT : 1 ≤ T) {s s' : St} {o : Op} {c : Nat}
+    (hr : Reach (Cfg.real T) s) (hc : s.conn = some c) (h : step (Cfg.real T) s o = (s', none)) :
+    ∀ p ∈ s'.pings, p ∈ s.pings ∨ (p.wire = some c ∧ p.sent = s'.now ∧ o = .tick) :=
+  step_pings (reach_inv hT hr) hc h
+
 /-- `responsive_never_dropped`: along any trace from a reachable state, if at every timer expiry
     every Ping that reached the connection in use has been answered within one interval
     (`Responsive`), `signal_reconnect` never fires: no `disconnect()` is added. -/
@@ -223,6 +235,15 @@ example : (run (Cfg.real 2) init responsiveTrace).2 = none ∧
     Responsive (Cfg.real 2) init responsiveTrace = true ∧
     (run (Cfg.real 2) init responsiveTrace).1.drops = [] ∧
     (run (Cfg.real 2) init responsiveTrace).1.wireLog = [(0, 1, 2), (0, 2, 4), (0, 3, 6), (0, 4, 8)] := by decide
+
+/-- the same responsive run with the transport pausing the Outbound across the first two
+    expiries (t = 1 … 5): the Pings of t = 2 and t = 4 are written all the same, nothing is dropped -/
+example : (run (Cfg.real 2) init (connectedLeader ++ [.tick, .pause, .tick, .tick, .pong 1, .tick, .tick, .resume,
+      .pong 2, .tick, .tick])).2 = none ∧
+    (run (Cfg.real 2) init (connectedLeader ++ [.tick, .pause, .tick, .tick, .pong 1, .tick, .tick, .resume,
+      .pong 2, .tick, .tick])).1.wireLog = [(0, 1, 2), (0, 2, 4), (0, 3, 6)] ∧
+    (run (Cfg.real 2) init (connectedLeader ++ [.tick, .pause, .tick, .tick, .pong 1, .tick, .tick, .resume,
+      .pong 2, .tick, .tick])).1.drops = [] := by decide
 
 /-- `Responsive` is a real restriction: the silent run violates it and is dropped at `2·T` -/
 example : Responsive (Cfg.real 2) init silentTrace = false ∧
